@@ -2,99 +2,27 @@
 package c01
 
 import (
-	"fmt"
 	"testing"
 
 	"pgregory.net/rapid"
 
+	"verif/dcheck"
 	"verif/e1"
 	"verif/lgen"
 	"verif/vf"
 )
 
-func TestMain(m *testing.M) { vf.Main(m) }
+func TestMain(m *testing.M)   { vf.Main(m) }
 func TestReplay(t *testing.T) { vf.Replay(t) }
 
-type ProgCase struct {
-	Src     string         `json:"src"`
-	Profile string         `json:"profile,omitempty"`
-	Layout  string         `json:"layout,omitempty"`
-	Classes map[string]int `json:"gen_classes,omitempty"`
-}
-
-var chkDiff = vf.Register("ref_diff", func(k *vf.C, c *ProgCase) error {
-	v, detail, r, _ := e1.Diff(c.Src)
-	switch v {
-	case e1.Discard:
-		k.Discard(discardKey(detail))
-		return nil
-	case e1.Differ:
-		return fmt.Errorf("%s", detail)
-	}
-	for cl, n := range c.Classes {
-		k.ClassN("gen:"+cl, n)
-	}
+// non-trivial: >= 8 statements of >= 4 kinds executed, >= 3 values emitted
+var chkDiff = vf.Register("ref_diff", dcheck.Oracle(func(c *dcheck.ProgCase, r *e1.ROutcome) (bool, string) {
 	st := r.In.Stat
-	for cl, n := range st.Classes {
-		k.ClassN("run:"+cl, n)
-	}
-	if st.Coercions > 0 {
-		k.Class("run:coercion")
-	}
-	if st.Caught > 0 {
-		k.Class("run:fault_caught")
-	}
-	if r.Failed {
-		k.Class("run:chunk_failed")
-	}
-	k.Class("layout:" + c.Layout)
-	// non-trivial: >= 8 statements of >= 4 kinds executed, >= 3 values emitted, did not fail in its first statement
-	nvals := 0
-	for _, e := range r.Trace {
-		nvals += len(e.Vals)
-	}
-	if st.Stmts >= 8 && len(st.StmtKinds) >= 4 && nvals >= 3 {
-		k.Nontrivial(vf.Hash(c.Src))
-		k.Sample(c.Layout, 2, map[string]any{"src": clip(c.Src, 1500), "events": len(r.Trace), "stmts_executed": st.Stmts})
-	}
-	return nil
-})
-
-func discardKey(d string) string {
-	if len(d) > 70 {
-		d = d[:70]
-	}
-	return d
-}
-
-func clip(s string, n int) string {
-	if len(s) > n {
-		return s[:n] + "..."
-	}
-	return s
-}
+	return st.Stmts >= 8 && len(st.StmtKinds) >= 4 && dcheck.Values(r) >= 3, ""
+}))
 
 func init() { chkDiff.Journal = true }
 
-func genCase(rt *rapid.T, p *lgen.Profile) *ProgCase {
-	g := lgen.New(rt, p)
-	b := g.Program()
-	lay := &lgen.Layout{Ch: g}
-	name := "canonical"
-	switch rapid.IntRange(0, 3).Draw(rt, "layout") {
-	case 1:
-		lay.Spell, lay.Parens, lay.Semis = true, true, true
-		name = "spelled"
-	case 2:
-		lay.Wild, lay.Spell, lay.Semis, lay.Parens = true, true, true, true
-		lay.CRLF = rapid.IntRange(0, 3).Draw(rt, "crlf")
-		name = "wild"
-	}
-	return &ProgCase{Src: lgen.Print(b, lay), Profile: p.Name, Layout: name, Classes: g.Classes}
-}
-
 func TestCoreDiff(t *testing.T) {
-	vf.Rapid(t, func(rt *rapid.T) {
-		chkDiff.Run(rt, genCase(rt, lgen.Core()))
-	})
+	vf.Rapid(t, func(rt *rapid.T) { chkDiff.Run(rt, dcheck.Gen(rt, lgen.Core())) })
 }
